@@ -336,7 +336,7 @@ func (ex *Exec) assumeTypeFacts(st *State, t types.Type, v Term) {
 		}
 	case *types.Slice:
 		st.assume(and(le(intLit(0), slcOff(v)), le(intLit(0), slcLen(v)), le(slcLen(v), slcCap(v)), le(intLit(0), slcBase(v)), lt(slcBase(v), st.alloc),
-			app(SBool, "in_i64", slcCap(v)),
+			le(slcCap(v), mk(SInt, "2305843009213693952")), // no slice holds more than 2^61 elements (address-space bound)
 			implies(eq(slcBase(v), intLit(0)), eq(slcCap(v), intLit(0)))))
 	case *types.Interface:
 		if v.Sort != SVal {
@@ -489,4 +489,10 @@ func (ex *Exec) assumeValRanges(st *State, v Term) {
 	p := app(SInt, "pl_int", v)
 	st.assume(implies(and(ge(k, intLit(7)), le(k, intLit(12))), and(ge(p, intLit(0)), le(p, mk(SInt, "18446744073709551615")))))
 	st.assume(implies(and(ge(k, intLit(2)), le(k, intLit(6))), app(SBool, "in_i64", p)))
+	for _, r := range []struct {
+		kind   int64
+		lo, hi string
+	}{{3, "(- 128)", "127"}, {4, "(- 32768)", "32767"}, {5, "(- 2147483648)", "2147483647"}, {8, "0", "255"}, {9, "0", "65535"}, {10, "0", "4294967295"}} {
+		st.assume(implies(eq(k, intLit(r.kind)), and(le(mk(SInt, r.lo), p), le(p, mk(SInt, r.hi)))))
+	}
 }
